@@ -37,7 +37,14 @@ struct Agg {
 
 /// run one case; hangs and crashes that repeat on a second attempt become findings
 fn judge(pool: &Pool, slot: usize, case: &Case) -> (Vec<Finding>, Option<Verdict>, u32) {
-    let (res, attempts) = pool.run(slot, case);
+    let (mut res, mut attempts) = pool.run(slot, case);
+    // same rule for a hang reported by the driver itself (an emitter that never came back):
+    // it counts only if it repeats on a second attempt
+    if matches!(&res, Ok(o) if o.emitter_stuck) {
+        let (again, n) = pool.run(slot, case);
+        res = again;
+        attempts += n;
+    }
     match res {
         Ok(out) => {
             let v = evaluate(case, &out);
@@ -106,10 +113,11 @@ fn run_scenario(
                     if v.delivered > 0 && v.filtered > 0 {
                         a.nontrivial += 1;
                         let smp = || json!({"config": case.config, "script": script_label, "cut": case.cut, "shutdown": case.shutdown, "drain": case.drain, "threads": case.threads, "observed_deliveries(target level -> front end -> appenders)": v.matrix});
-                        if a.sample_lo.as_ref().map_or(true, |(i, _)| idx < *i) {
+                        // samples only from executions whose observable outcome is schedule-independent
+                        if !racy(&case) && a.sample_lo.as_ref().map_or(true, |(i, _)| idx < *i) {
                             a.sample_lo = Some((idx, smp()));
                         }
-                        if a.sample_hi.as_ref().map_or(true, |(i, _)| idx > *i) {
+                        if !racy(&case) && a.sample_hi.as_ref().map_or(true, |(i, _)| idx > *i) {
                             a.sample_hi = Some((idx, smp()));
                         }
                     }
